@@ -215,6 +215,11 @@ Proof.
   - split; [exact IK|]. split; [split; assumption|cs_refl].
 Qed.
 
+Lemma do_close_quiet : forall s fd, heap (do_close s fd) = heap s /\ cur (do_close s fd) = cur s /\
+  ev_batch (do_close s fd) = ev_batch s /\ active (do_close s fd) = active s /\ tfd (do_close s fd) = tfd s /\
+  method (do_close s fd) = method s.
+Proof. intros. unfold do_close. destruct (k_close (kern s) fd) as [k1 ok]. destruct ok; repeat split. Qed.
+
 Lemma deinit_inv : forall sc s, Inv s -> TfdM s -> AllGone s -> Inv (deinit sc s) /\ TfdM (deinit sc s).
 Proof.
   intros sc s (I & Q) T G. unfold deinit. destruct ((sc_backend sc =? M_ET) || (sc_backend sc =? M_EP)); [|split; [split|]; assumption].
@@ -223,8 +228,8 @@ Proof.
                  InvW (do_close s0 fd) /\ Quiet (do_close s0 fd) /\ TfdM (do_close s0 fd) /\ AllGone (do_close s0 fd)).
   { intros s0 fd (I0 & Q0 & T0 & G0). destruct (do_close_gone s0 fd I0 G0) as (I1 & G1 & CS).
     split; [assumption|]. split; [|split; [|assumption]].
-    - destruct Q0. constructor; cs_rw CS; assumption.
-    - unfold TfdM. cs_rw CS. exact T0. }
+    - destruct (do_close_quiet s0 fd) as (E1 & E2 & E3 & E4 & _). destruct Q0. constructor; rewrite ?E1, ?E2, ?E3, ?E4; assumption.
+    - destruct (do_close_quiet s0 fd) as (_ & _ & _ & _ & E5 & E6). unfold TfdM. rewrite E5, E6. exact T0. }
   assert (S1 : let s1 := if tfd s =? -1 then s else do_close s (tfd s) in InvW s1 /\ Quiet s1 /\ TfdM s1 /\ AllGone s1).
   { cbv zeta. destruct (tfd s =? -1); [tauto|apply ST; tauto]. }
   cbv zeta in S1. destruct (ST _ (epfd (if tfd s =? -1 then s else do_close s (tfd s))) S1) as (A & B & C & _).
